@@ -65,8 +65,42 @@ def is_restore(prog, f, arg, depth=0):
     return False
 
 
+def check_seek_after_eof(prog, rep, rule):
+    """seekg on the cached input stream happens with the error state fully cleared: a final short read sets eofbit AND failbit, and seekg
+    fails while failbit is set, so the clear() before it must reset the whole state (no argument / goodbit), not only eofbit."""
+    n_seek = 0
+    for f in sorted(prog.funcs.values(), key=lambda x: x.id):
+        if f.cls != 'BitSerializer::Detail::CBinaryStreamReader':
+            continue
+        seeks = [n for n in f.walk() if n['k'] == 'CXXMemberCallExpr' and (f.callee(n) or {}).get('n') == 'seekg']
+        if not seeks:
+            continue
+        rep.touch(f)
+        for sk in seeks:
+            n_seek += 1
+            clears = [n for n in f.walk() if n['k'] == 'CXXMemberCallExpr' and (f.callee(n) or {}).get('n') == 'clear' and n['l'] <= sk['l']
+                      and strip_targs((f.callee(n) or {}).get('q', '')).startswith('std::basic_ios')]
+            partial = None
+            for c in clears:
+                args = [a for a in c['c'][1:] if a['k'] != 'CXXDefaultArgExpr']
+                if args and strip(args[0]).get('cv', args[0].get('cv')) != 0:
+                    partial = c
+            if clears and partial is None:
+                rep.ok(rule, f.pq, sample={'function': f.pq, 'seekg_at': f.loc(sk), 'preceded_by': 'clear() of the whole error state'})
+            elif partial is not None:
+                rep.finding(rule, f.pq + '|partial clear', f.loc(partial), '%s clears the stream state with a computed mask before seekg: a final short read sets '
+                            'failbit together with eofbit, seekg fails while failbit is set and the rewind (wrap-around key search, restore of a saved '
+                            'position) silently does not happen' % f.pq, func=f.id)
+            else:
+                rep.finding(rule, f.pq, f.loc(sk), '%s seeks without clearing eofbit/failbit: after the final short read a backward seek fails '
+                            '(wrap-around key search on streams larger than one chunk)' % f.pq, func=f.id)
+    if not n_seek:
+        raise AnalysisBroken('%s: no seekg found in CBinaryStreamReader' % rule)
+
+
 def run(prog, rep):
-    rep.rule('R3.1', 'failure-reporting results (SetPosition, ReadChunk, Write, Transcode) are consumed; tabled look-ahead / restore sites aside', floor=8)
+    rep.rule('R3.1',
+ 'failure-reporting results (SetPosition, ReadChunk, Write, Transcode) are consumed; tabled look-ahead / restore sites aside', floor=8)
     rep.rule('R3.2', 'seekg on the cached input stream is preceded by clear() of the end-of-file state', floor=1)
     rep.rule('R3.3', 'single-value wrappers: the target is stored only on a path where the inner load returned true, and that result is returned', floor=60)
     rep.rule('R3.4', 'validators are called with (value, result-of-the-load)', floor=20)
@@ -108,32 +142,7 @@ def run(prog, rep):
                             % (caller, q, RESULT_CALLEES[q]), {'instantiation': f.id}, func=f.id)
 
     # ---------------------------------------------------------------- R3.2
-    for f in sorted(prog.funcs.values(), key=lambda x: x.id):
-        if f.cls != 'BitSerializer::Detail::CBinaryStreamReader':
-            continue
-        seeks = [n for n in f.walk() if n['k'] == 'CXXMemberCallExpr' and (f.callee(n) or {}).get('n') == 'seekg']
-        if not seeks:
-            continue
-        rep.touch(f)
-        for sk in seeks:
-            ok = False
-            for n in f.walk():
-                if n['k'] == 'IfStmt' and n['l'] <= sk['l']:
-                    c = child(n, 'cond')
-                    tests = any((f.callee(x) or {}).get('n') in ('eof', 'fail', 'good', 'rdstate') for x in f.walk(c) if x['k'] == 'CXXMemberCallExpr')
-                    clears = any((f.callee(x) or {}).get('n') == 'clear' for x in f.walk(child(n, 'then')) if x['k'] == 'CXXMemberCallExpr')
-                    if tests and clears:
-                        ok = True
-                if n['k'] == 'CXXMemberCallExpr' and (f.callee(n) or {}).get('n') == 'clear' and n['l'] <= sk['l'] and \
-                        strip_targs((f.callee(n) or {}).get('q', '')).startswith('std::basic_ios'):
-                    ok = True
-            if ok:
-                rep.ok('R3.2', f.pq, sample={'function': f.pq, 'seekg_at': f.loc(sk), 'preceded_by': 'clear() of the eof state'})
-            else:
-                rep.finding('R3.2', f.pq, f.loc(sk), '%s seeks without clearing eofbit/failbit: after the final short read a backward seek fails '
-                            '(wrap-around key search on streams larger than one chunk)' % f.pq, func=f.id)
-    if not rep.rules['R3.2'].instances:
-        raise AnalysisBroken('R3.2: no seekg found in CBinaryStreamReader')
+    check_seek_after_eof(prog, rep, 'R3.2')
 
     # ---------------------------------------------------------------- R3.3
     check_wrappers(prog, rep)
